@@ -100,6 +100,9 @@ def script_spec(kind, which):
             "space": space, "state": state}
     sc = {"system": spec, "t_sample": ts, "time_step": 0.25, "policy": pol, "seed": 12345 if which == "a" else 777,
           "isp": "none"}
+    if gtype == "graph" and which == "a":
+        sc["units"] = ["µm", "s", "nmol"]        # output requested in a non-molecule quantity unit
+        sc["system"]["units"] = ["µm", "s", "molecule"]
     if engine == "gillespie":
         sc["t_max"] = 0.08 if which == "a" else 0.5
         if which == "a":
